@@ -95,7 +95,7 @@ def shards(tier, seed):
     for i, (a, d) in enumerate(MODES):
         for p in range(nparts):
             out.append({"kind": "gen", "auto": a, "delta": d, "name": f"gen-a{int(a)}d{int(d)}-{p}",
-                        "n": 22 if q else 150, "mags": 1 if q else 2})
+                        "n": 22 if q else 400, "mags": 1 if q else 2})
     for a in (False, True):
         out.append({"kind": "log", "auto": a, "name": f"log-a{int(a)}", "mags": 3 if q else 12})
     out.append({"kind": "conv", "name": "conv", "mags": 6 if q else 40})
@@ -352,6 +352,10 @@ class Env:
         for o in (L, R_):
             if o is not None and not isinstance(o, self.R.MQ):
                 fields["number_kind"] = type(o).__name__
+        if not isinstance(L, self.R.MQ) and type(L).__module__ == "numpy" and isinstance(R_, self.R.MQ):
+            # numpy number on the left: Python dispatches to ndarray.__op__ -> Quantity.__array_ufunc__,
+            # not to Quantity.__rop__
+            fields["numpy_left_operand"] = True
         if extra:
             fields.update(extra)
         status, val = oc
